@@ -85,6 +85,7 @@ class Runner:
         self.other = {}        # signatures of the sibling property seen (not reported here)
         self.segments = 0
         self.rediscovered = set()
+        self.markers = {"upper": {}, "lower": {}}   # opaque marker names really present on disk, by layer position
 
     def harness(self, mode, args, env=None):
         self.n += 1
@@ -107,6 +108,11 @@ class Runner:
         segs = {}
         for i, e in enumerate(ev):
             segs.setdefault(e["seg"], []).append(i)
+            if e["e"] == "Layers":
+                for pos, rows in (("upper", e["upper"]),) + tuple(("lower", r) for r in e["lowers"]):
+                    for r in rows:
+                        if r.get("opq"):
+                            self.markers[pos][r["opq"]] = self.markers[pos].get(r["opq"], 0) + 1
             if e["e"] == "Op":
                 k = "%s:%s" % (e["op"], "ok" if e["st"] == 0 else "fail")
                 self.opcount[k] = self.opcount.get(k, 0) + 1
@@ -327,8 +333,15 @@ def run_prop(ctx):
     cfg = gen_cfg(ctx, base, "export.cfg", known=(), invs=["Export"], consts={"MaxOps": 3})
     r = C.tlc_mc(ctx, "MC_Overlay", cfg=cfg, workers=4, timeout=1200, simulate="num=%d" % nwalk, depth=5, coverage=False, must_cover=False, xmx="3g")
     scns = []
+    import random
+    rnd = random.Random(ctx.seed)
     for t in tuples(r["output"], "REPLAY"):
         s = json.loads(t[1])
+        # each opaque directory is marked with exactly one of the three xattr names (seeded choice)
+        for rows in s["layers"]:
+            for row in rows:
+                if row.get("opq"):
+                    row["opq"] = rnd.choice(["trusted", "user", "fuse"])
         s["id"] = "sim%d" % len(scns)
         scns.append(s)
         if len(scns) >= nwalk:
@@ -347,7 +360,13 @@ def run_prop(ctx):
     ctx.extra["tlc_scenarios_replayed"] = len(scns) + len(extra)
     ctx.sample({"scenario": scns[0], "verdict": "validated by Trace_Overlay"})
     binding_demo(ctx, run, ev)
-    # --- 3. seeded random driver far beyond TLC's bounds
+    # --- 3. systematic layer stacks (every combination of absent/file/dir/opaque dir/whiteout/symlink for one name
+    #        over upper + 2 lowers and over 2 lowers alone, judged by the union rules) and copy-up chains through
+    #        lower-only directories with sticky / unusual modes
+    seg0 = run.segments
+    found, _ = run.judge(run.harness("stacks", []), "systematic layer stacks")
+    ctx.extra["systematic_stack_scenarios"] = run.segments - seg0
+    # --- 4. seeded random driver far beyond TLC's bounds
     nscen = 30 if quick else 700
     tf = run.harness("random", [], env={"OVL_SCEN": nscen, "OVL_OPS": 30, "OVL_BIG": 10 if quick else 12})
     found, ev = run.judge(tf, "random driver")
@@ -357,6 +376,10 @@ def run_prop(ctx):
     missing = [o for o in OPS if run.opcount.get(o + ":ok", 0) == 0]
     if missing:
         raise C.ToolError("coverage gate: operations never successful on the real code: %s" % missing)
+    for pos in ("upper", "lower"):
+        if set(run.markers[pos]) != {"trusted", "user", "fuse"}:
+            raise C.ToolError("coverage gate: opaque marker names exercised in %s layers: %s" % (pos, run.markers[pos]))
+    ctx.extra["opaque_markers_exercised"] = run.markers
     ctx.extra.update({
         "op_coverage": run.opcount,
         "distinct_nontrivial": len(run.opcount) + run.segments,
